@@ -180,15 +180,26 @@ package transport
 //@   ghost held = false
 //@   at `c.mu.Lock()` ghost held = true
 //@   at `c.mu.Unlock()` ghost held = false
-//@   callsite writeJsonWithSSE: requires held
-//@   at `fmt.Fprint(w, "event: complete\n\n")` requires held
-//@   at! `c.write(func() { fmt.Fprint(w, "event: complete\n\n") c.close() })` requires calls(DispatchOperation) + calls(DispatchError) == 1
-//@   ghost wAtComplete = 0 - 1
-//@   at! `fmt.Fprint(w, "event: complete\n\n")` ghost wAtComplete = calls(write)
-//@   at! `c.close()` requires held && wAtComplete == calls(write) && calls(Fprint) == 2
-//@   callsite write: requires calls(close) == 0 && calls(stopKeepAlive) == 0
-//@   ensures calls(spawn) >= 1 ==> calls(stopKeepAlive) == 1
-//@   ensures @C05 calls(spawn) >= 1 ==> calls(stopKeepAlive) == 1
+// every write to the shared ResponseWriter is exclusive: under the connection lock, or while the keep-alive
+// goroutine does not exist (not started yet, or stopped - a closed connection is never written to by write)
+//@   callsite writeJsonWithSSE: requires held || calls(spawn) == 0 || calls(stopKeepAlive) >= 1
+//@   callsite Fprint: requires held || calls(spawn) == 0 || calls(stopKeepAlive) >= 1
+//@   callsite writeJson: requires held || calls(spawn) == 0 || calls(stopKeepAlive) >= 1
+//@   callsite SendErrorf: requires held || calls(spawn) == 0 || calls(stopKeepAlive) >= 1
+// exactly one terminal event, after the one dispatch; no ping can follow it: the connection is closed before it is
+// written, or in the same lock hold
+//@   ghost completeAt = 0 - 1
+//@   ghost closedBeforeComplete = false
+//@   ghost closedWithComplete = false
+//@   at! `fmt.Fprint(w, "event: complete\n\n")` requires calls(DispatchOperation) + calls(DispatchError) == 1 && completeAt == 0 - 1
+//@   at! `fmt.Fprint(w, "event: complete\n\n")` ghost closedBeforeComplete = calls(stopKeepAlive) >= 1
+//@   at! `fmt.Fprint(w, "event: complete\n\n")` ghost completeAt = calls(write) + calls(Lock) + calls(Unlock)
+//@   at? `c.close()` ghost closedWithComplete = held && completeAt == calls(write) + calls(Lock) + calls(Unlock)
+//@   callsite close: requires held
+//@   ensures !panicked && calls(spawn) >= 1 && completeAt >= 0 ==> closedBeforeComplete || closedWithComplete
+//@   ensures !panicked && calls(CreateOperationContext) == 1 ==> completeAt >= 0
+// the keep-alive goroutine is stopped on every exit after it was started (also when the executor panics)
+//@   onexit calls(spawn) >= 1 ==> calls(stopKeepAlive) + calls(close) >= 1
 //@   ghost drained = false
 //@   at `responses(ctx)` ghost drained = callres0 == nil
 //@   ensures @C05 calls(DispatchOperation) >= 1 ==> drained
@@ -529,7 +540,7 @@ package transport
 //@   requires c != nil
 //@   ghost held = false
 //@   at `c.mu.Lock()` ghost held = true
-//@   at `defer c.mu.Unlock()` requires held
+//@   at? `c.mu.Unlock()` ghost held = false
 //@   at! `c.close()` requires held
 //@   ensures calls(Lock) == 1 && calls(Unlock) == 1 && calls(close) == 1
 //@   ensures c.closed
